@@ -235,3 +235,87 @@ package val
 //@   assigns nothing
 //@   ensures a == nil || b == nil ==> result == (a == nil && b == nil)
 //@   ensures a != nil && b != nil ==> result == (sameDyn(a, b) && cmpv(a, b) == 0)
+
+// ---- C10: conversion is exact or fails -------------------------------------------------------------
+// The source kinds under contract: every Go integer kind, float32/float64, string, bool. time.Time and
+// the reflect fall-backs (named integer kinds) are excluded by precondition and listed as unverified.
+
+//@ pure numSrc(v interface{}) bool = dyn(v) == int8 || dyn(v) == uint8 || dyn(v) == int16 || dyn(v) == uint16 || dyn(v) == int32 || dyn(v) == uint32 \
+//@      || dyn(v) == int64 || dyn(v) == uint64 || dyn(v) == int || dyn(v) == uint || dyn(v) == float32 || dyn(v) == float64 || dyn(v) == string
+
+// denotesInt(r, v): the mathematical integer r is exactly the number the source value v denotes
+//@ pure denotesInt(r int, v interface{}) bool = \
+//@      (dyn(v) == int8 ==> r == v.(int8)) && (dyn(v) == uint8 ==> r == v.(uint8)) && (dyn(v) == int16 ==> r == v.(int16)) && (dyn(v) == uint16 ==> r == v.(uint16)) \
+//@   && (dyn(v) == int32 ==> r == v.(int32)) && (dyn(v) == uint32 ==> r == v.(uint32)) && (dyn(v) == int64 ==> r == v.(int64)) && (dyn(v) == uint64 ==> r == v.(uint64)) \
+//@   && (dyn(v) == int ==> r == v.(int)) && (dyn(v) == uint ==> r == v.(uint)) \
+//@   && (dyn(v) == float64 ==> fdenotes(v.(float64), r)) && (dyn(v) == float32 ==> fdenotes(v.(float32), r)) \
+//@   && (dyn(v) == string ==> r == strnum(v.(string)))
+
+//@ func toInt8(val interface{}) (int8, error)
+//@   mode bv
+//@   property C10
+//@   requires numSrc(val)
+//@   ensures result1 == nil ==> denotesInt(result0, val)
+
+//@ func toUInt8(val interface{}) (uint8, error)
+//@   mode bv
+//@   property C10
+//@   requires numSrc(val)
+//@   ensures result1 == nil ==> denotesInt(result0, val)
+
+//@ func toInt16(val interface{}) (int16, error)
+//@   mode bv
+//@   property C10
+//@   requires numSrc(val)
+//@   ensures result1 == nil ==> denotesInt(result0, val)
+
+//@ func toUInt16(val interface{}) (uint16, error)
+//@   mode bv
+//@   property C10
+//@   requires numSrc(val)
+//@   ensures result1 == nil ==> denotesInt(result0, val)
+
+//@ func toInt32(val interface{}) (n int32, err error)
+//@   mode bv
+//@   property C10
+//@   requires numSrc(val)
+//@   ensures err == nil ==> denotesInt(n, val)
+
+//@ func toUInt32(val interface{}) (uint32, error)
+//@   mode bv
+//@   property C10
+//@   requires numSrc(val)
+//@   ensures result1 == nil ==> denotesInt(result0, val)
+
+//@ func toInt64(val interface{}) (n int64, err error)
+//@   mode bv
+//@   property C10
+//@   requires numSrc(val)
+//@   ensures err == nil ==> denotesInt(n, val)
+
+//@ func toUInt64(val interface{}) (uint64, error)
+//@   mode bv
+//@   property C10
+//@   requires numSrc(val)
+//@   ensures result1 == nil ==> denotesInt(result0, val)
+
+//@ pure denotesFloat(r float64, v interface{}) bool = \
+//@      (dyn(v) == int8 ==> fdenotes(r, v.(int8))) && (dyn(v) == uint8 ==> fdenotes(r, v.(uint8))) && (dyn(v) == int16 ==> fdenotes(r, v.(int16))) && (dyn(v) == uint16 ==> fdenotes(r, v.(uint16))) \
+//@   && (dyn(v) == int32 ==> fdenotes(r, v.(int32))) && (dyn(v) == uint32 ==> fdenotes(r, v.(uint32))) && (dyn(v) == int64 ==> fdenotes(r, v.(int64))) && (dyn(v) == uint64 ==> fdenotes(r, v.(uint64))) \
+//@   && (dyn(v) == int ==> fdenotes(r, v.(int))) && (dyn(v) == uint ==> fdenotes(r, v.(uint))) \
+//@   && (dyn(v) == float64 ==> fsame(r, v.(float64))) && (dyn(v) == float32 ==> fsame(r, f64(v.(float32)))) \
+//@   && (dyn(v) == string ==> fsame(r, strfloat(v.(string))))
+
+//@ func toDecimal64(val interface{}) (float64, error)
+//@   mode bv
+//@   property C10
+//@   requires numSrc(val)
+//@   ensures result1 == nil ==> denotesFloat(result0, val)
+
+//@ func toBool(val interface{}) (bool, error)
+//@   mode bv
+//@   property C10
+//@   requires dyn(val) == bool || dyn(val) == string
+//@   ensures result1 == nil && dyn(val) == bool ==> result0 == val.(bool)
+//@   ensures result1 == nil && dyn(val) == string && result0 ==> (val.(string) == "1" || val.(string) == "true" || val.(string) == "yes")
+//@   ensures result1 == nil && dyn(val) == string && !result0 ==> (val.(string) == "0" || val.(string) == "false" || val.(string) == "np")
